@@ -1,5 +1,5 @@
 (* C10 — Failures in user code stay isolated (statements only). *)
-From EAS Require Import Base Sched SchedInv SchedApi SchedProps SchedLog SchedIso SchedFuel.
+From EAS Require Import Base Sched SchedInv SchedApi SchedProps SchedLog SchedIso SchedFuel SchedHandled.
 
 (* The invariant - hence the armed timer and the schedule of every job - holds in every reachable state
    for EVERY environment: whichever callables, callbacks and triggers raise at whichever invocation. *)
@@ -47,3 +47,10 @@ Theorem C10_F5_refuted_run :
   exists E ops, forall fuel, In NoFuel (snd (run E fuel false (init 0 true) ops)).
 Proof. exact F5_refuted_run. Qed.
 Print Assumptions C10_F5_refuted_run.
+
+(* EXACTLY ONCE: in every history the exception handler received exactly as many exceptions from the callable of
+   job j as starts of j raised, and exactly as many from callback c as invocations of c raised *)
+Theorem C10_handled_exactly_once :
+  forall E fuel hs t0 en ops s rs, run E fuel hs (init t0 en) ops = (s, rs) -> once E (log s).
+Proof. exact handled_exactly_once. Qed.
+Print Assumptions C10_handled_exactly_once.
